@@ -190,6 +190,7 @@ type Exec struct {
 	steerVal   *term.T // term whose model value is reported with that assertion
 	steerNote  string
 	inGos      bool // service goroutines are running (no nested runs)
+	termID     string // inside verifrt.T.Terminates: the assertion a loop-bound overrun violates
 	onces     map[*Value]bool
 	lastPanic string
 	NowBase   int64
@@ -1094,6 +1095,10 @@ func (ex *Exec) runFrame(fr *frame) {
 			}
 			fr.visits[b]++
 			if fr.visits[b] > ex.sh.LoopBound {
+				if ex.termID != "" && len(ex.decisions) >= len(ex.prefix) {
+					ex.assertMsg(nil, ex.termID, fmt.Sprintf("does not terminate: more than %d rounds of a loop in %s", ex.sh.LoopBound, fr.fn)+ex.where())
+					panic(pathAbort{"stop", "non-termination reported"})
+				}
 				panic(pathAbort{"unwind", fmt.Sprintf("loop bound %d exceeded in %s", ex.sh.LoopBound, fr.fn) + ex.where()})
 			}
 		}
@@ -1590,7 +1595,12 @@ func (ex *Exec) makeSlice(fr *frame, in *ssa.MakeSlice) Value {
 		// append aliasing; stated approximation)
 		tb := ex.tb
 		if ex.sh.AllocBound > 0 {
-			ex.assert(tb.BAnd(tb.Cmp(term.OSle, tb.Const(64, 0), cp), tb.Cmp(term.OSle, cp, tb.Const(64, uint64(ex.sh.AllocBound)))), ex.sh.Property+".alloc-bounded")
+			b := uint64(ex.sh.AllocBound)
+			ex.steer = tb.BAnd(tb.Cmp(term.OSle, tb.Const(64, 16*b), cp), tb.Cmp(term.OSle, cp, tb.Const(64, 64*b)))
+			ex.steerVal = cp
+			ex.steerNote = fmt.Sprintf("elem-bytes=%d", (&types.StdSizes{WordSize: 8, MaxAlign: 8}).Sizeof(in.Type().Underlying().(*types.Slice).Elem()))
+			ex.assert(tb.BAnd(tb.Cmp(term.OSle, tb.Const(64, 0), cp), tb.Cmp(term.OSle, cp, tb.Const(64, b))), ex.sh.Property+".alloc-bounded")
+			ex.steer, ex.steerVal, ex.steerNote = nil, nil, ""
 		}
 		okc := tb.BAnd(tb.Cmp(term.OSle, tb.Const(64, uint64(l)), cp), tb.Cmp(term.OSle, cp, tb.Const(64, 1<<40)))
 		if !ex.branch(okc) {
